@@ -24,9 +24,12 @@ def fam(run, profiles=None, core=3, rnd=40, hand=True):
 def c01(run):
     fd = build.build_flex()
     rng = random.Random(run.seed)
+    mc = units.model_async(run, invariants=("LongestFirst", "EofOnlyAtEnd"))
     srcs = fam(run, core=3 if run.tier == "quick" else 12, rnd=40)
+    srcs += rulesets.proto_family(12 if run.tier == "quick" else 60) + [rulesets.proto_ruleset(random.Random(run.seed * 7919 + i), "rnd-proto-%d" % i) for i in range(6 if run.tier == "quick" else 40)]
     cases = units.product_unit(run, fd, srcs, [{"tbl": ""}], tag="product", san=True)
     units.trace_unit(run, cases, rng, per_case=8 if run.tier == "quick" else 30, scripts=False, tag="tokens", full_cover=600 if run.tier == "quick" else 3000)
+    mc.result()
     run.assumptions += ["rule sets are sampled (each one is decided for all inputs by the product check)",
                         "Render() (lib/vf/pattern.py) writes the manual's concrete syntax"]
 
@@ -60,7 +63,7 @@ def c02(run):
     hand = rulesets.handwritten()
     core = rulesets.core_family(1)
     # (a) the whole table/mode lattice for a fixed set of rule sets
-    fixed = hand[:4] + [s for s in core if s["profile"] in ("nul", "ccl", "sc", "mix", "ci", "ref")]
+    fixed = hand[:4] + [s for s in core if s["profile"] in ("nul", "ccl", "sc", "mix", "ci", "ref")] + rulesets.proto_family(2)
     lattice = tbl_cfgs(ALL_TBL, inter=(None, False, True)) + tbl_cfgs(["-Cem", "-Cf"], reject=(True,)) \
         + tbl_cfgs(["-Cem", "-Cf", "-CF", "-Cfe"], extra={"bits": 7})
     units.product_unit(run, fd, [s for s in fixed if not s.get("sevenbit")], lattice, tag="lattice")
@@ -118,11 +121,11 @@ def c06(run):
     units.trace_unit(run, [c for c in cases if c.status == "ok"], rng, per_case=6 if q else 20, tag="traces", full_cover=600 if q else 3000)
     def bar_probe(sub):
         P = rulesets.P
-        r1 = rulesets.rule(P.chr_(97), P.chr_(98)); r1["bar"] = True
-        src = rulesets.ruleset([r1, rulesets.rule(P.chr_(99)), rulesets.rule(P.chr_(98))], name="probe-bar-after-trailing-context")
+        r1 = rulesets.rule(P.chr_(97), dollar=True); r1["bar"] = True
+        src = rulesets.ruleset([r1, rulesets.rule(P.chr_(99)), rulesets.rule(P.chr_(10))], name="probe-bar-after-dollar")
         cs = units.product_unit(sub, fd, [src], [{}], tag="p", san=True)
-        units.trace_unit(sub, cs, random.Random(1), per_case=1, tag="t", scripts=False, inputs_fn=lambda c, r, n: [bytes([97, 98, 99])])
-    run.probe("bar-after-trailing-context", bar_probe)
+        units.trace_unit(sub, cs, random.Random(1), per_case=1, tag="t", scripts=False, inputs_fn=lambda c, r, n: [bytes([97, 10, 99])])
+    run.probe("bar-after-dollar", bar_probe)
     run.assumptions += ["rule sets for which flex prints 'dangerous trailing context' are skipped (as the property allows)",
                         "whether a rule is compiled as *variable* trailing context is taken from the artifact (DESIGN.md C06)"]
 
@@ -137,6 +140,17 @@ def c07(run):
     cases = units.product_unit(run, fd, srcs, cfgs, tag="product", san=True)
     units.trace_unit(run, [c for c in cases if c.status == "ok"], rng, per_case=24 if q else 80, tag="rejtraces",
                      full_cover=40 if q else 200)
+    # REJECT found by flex in the action text (no %option reject), batch and interactive, NUL bytes in the input
+    asrcs = fam(run, profiles=("nul", "lit", "trail", "mix"), core=3 if q else 8, rnd=10 if q else 40)
+    acfgs = [{"tbl": "", "reject": "auto", "interactive": False}, {"tbl": "-Ca", "reject": "auto", "yymore": "auto", "interactive": True},
+             {"tbl": "-Cem", "reject": "auto", "interactive": False, "flavour": "r", "array": True}]
+    acases = units.product_unit(run, fd, asrcs, acfgs, tag="autoproduct", san=True)
+    def nulrich(c, rng, n):
+        base = units.cover_inputs(c, rng, n // 2)
+        al = c.alphabet + [0, 0]
+        return base + [bytes(rng.choice(al) for _ in range(rng.randint(1, 10))) for _ in range(n - len(base))]
+    units.trace_unit(run, [c for c in acases if c.status == "ok"], rng, per_case=16 if q else 60, tag="autoreject",
+                     inputs_fn=nulrich, bufsizes=(0, 0, 4), full_cover=40 if q else 200)
     # REJECT together with -Cf/-CF must be refused
     units.product_unit(run, fd, srcs[:6], tbl_cfgs(["-Cf", "-CF", "-Cfe"], reject=(True,)), tag="refusal")
 
@@ -200,6 +214,7 @@ def c05(run):
     fd = build.build_flex()
     rng = random.Random(run.seed)
     q = run.tier == "quick"
+    mc = units.model_async(run, invariants=(), properties=('ScOnly', 'StackLIFO'))
     srcs = fam(run, profiles=("sc", "sc3", "anch", "mix"), core=6 if q else 20, rnd=60)
     # activation: all inputs, all (condition, bol) start states, rendered as prefixes and as scopes
     cfgs = [{"tbl": "", "stack": True}, {"tbl": "", "scopes": True}, {"tbl": "-Cf"}, {"tbl": "", "reject": True}]
@@ -216,6 +231,7 @@ def c05(run):
         return job
     units.trace_unit(run, deep, rng, per_case=8, tag="deepstack", job_filter=jf)
     run.assumptions.append("calls between yylex() calls and across yyrestart/buffer switches: see the buffer units of C10/C11")
+    mc.result()
 
 
 @check("C08")
@@ -223,6 +239,7 @@ def c08(run):
     fd = build.build_flex()
     rng = random.Random(run.seed)
     q = run.tier == "quick"
+    mc = units.model_async(run, invariants=('Conservation',), properties=())
     srcs = fam(run, profiles=("lit", "ops", "ccl", "dot", "nul", "trail", "mix"), core=3 if q else 10, rnd=40)
     cfgs = []
     for arr in (False, True):
@@ -243,6 +260,7 @@ def c08(run):
     units.trace_unit(run, [c for c in cases if c.status == "ok"], rng, per_case=16 if q else 60, tag="edits",
                      bufsizes=(0, 0, 1, 2, 3, 8, 16), scheds=[[1], [2, 1], [], [5]],
                      script_modes=("random",), maxops=40)
+    mc.result()
 
 
 @check("C09")
@@ -250,6 +268,7 @@ def c09(run):
     fd = build.build_flex()
     rng = random.Random(run.seed)
     q = run.tier == "quick"
+    mc = units.model_async(run, invariants=('LinenoExact',), properties=())
     srcs = fam(run, profiles=("lit", "dot", "ccl", "posix", "setop", "grp", "ref", "trail", "anch", "mix"), core=2 if q else 10, rnd=30)
     srcs += newline_forms()
     cfgs = [{"yymore": True}, {"flavour": "r", "yymore": True}, {"reject": True, "interactive": False},
@@ -262,6 +281,7 @@ def c09(run):
         return base + [bytes(rng.choice(al) for _ in range(rng.randint(1, 14))) for _ in range(n - len(base))]
     units.trace_unit(run, [c for c in cases if c.status == "ok"], rng, per_case=14 if q else 50, tag="lineno",
                      inputs_fn=nl_inputs, bufsizes=(0, 0, 3, 8))
+    mc.result()
 
 
 def newline_forms():
@@ -283,6 +303,16 @@ def newline_forms():
     # trailing context holding the newline; '$'; newline in the head of r/s
     out.append(rulesets.ruleset([R(c(97), P.cat(c(nl), c(98))), R(c(98)), R(P.cat(c(99), c(nl)), c(100)), R(c(100), dollar=True),
                                  R(P.plus(c(101)), P.star(c(nl)) if False else P.plus(c(nl)))], name="nlform-trailing"))
+    # head (fixed / fixed ending in a newline / variable) x trailing context (fixed / variable) holding newlines
+    ws = P.ccl([P.cb(32), P.cb(nl)])
+    heads = {"fix": P.lit("en"), "fixnl": P.cat(c(101), c(nl)), "var": P.plus(c(101)), "varnl": P.plus(P.ccl([P.cb(101), P.cb(nl)]))}
+    trails = {"fix": P.cat(c(nl), c(nl), c(59)), "star": P.cat(P.star(ws), c(59)), "plus": P.cat(P.plus(ws), c(59)),
+              "alt": P.cat(P.plus(P.alt(c(nl), c(32))), c(59)), "opt": P.cat(P.opt(c(nl)), P.opt(c(32)), P.opt(c(nl)), c(59)),
+              "rep": P.cat(P.rep(ws, 1, 4), c(59))}
+    for hn, h in heads.items():
+        for tn, t in trails.items():
+            if hn == "varnl" and tn != "fix": continue       # both parts variable and overlapping: dangerous trailing context
+            out.append(rulesets.ruleset([R(h, t), R(P.alt(P.dot(), c(nl)))], name="nlform-tc-%s-%s" % (hn, tn)))
     return out
 
 
@@ -327,11 +357,13 @@ def c11(run):
     fd = build.build_flex()
     rng = random.Random(run.seed)
     q = run.tier == "quick"
+    mc = units.model_async(run, invariants=('Conservation',), properties=('Isolation',))
     srcs = fam(run, profiles=("lit", "sc", "ccl", "anch", "nul", "mix"), core=3 if q else 10, rnd=40)
     cfgs = [{"userwrap": False}, {"userwrap": True}, {"userwrap": False, "flavour": "r"}, {"userwrap": True, "flavour": "r", "tbl": "-Cf"}]
     cases = units.product_unit(run, fd, srcs, cfgs, tag="product", san=True)
     ok = [c for c in cases if c.status == "ok"]
     units.trace_unit(run, ok, rng, per_case=20 if q else 80, tag="buffers", job_filter=buffer_jobs("buf"), scripts=False)
+    mc.result()
 
 
 @check("C03")
@@ -359,7 +391,8 @@ def c03(run):
                      bufsizes=(0, 1, 2, 3, 4, 7, 16, 64), scheds=[[1], [2], [3], [1, 2], [5, 1], [], [64], [2, 1, 4]],
                      inputs_fn=long_inputs)
     # (b) the scanner's own YY_INPUT (stdio) and in-memory delivery: same specification, same tokens
-    cfgs2 = [{"userread": False}, {"userread": False, "interactive": False}, {"userread": False, "tbl": "-Cf"}]
+    cfgs2 = [{"userread": False}, {"userread": False, "interactive": False}, {"userread": False, "tbl": "-Cf"},
+             {"userread": False, "extra_opts": "always-interactive"}, {"userread": False, "extra_opts": "always-interactive", "flavour": "r", "tbl": "-Ca"}]
     cases2 = units.product_unit(run, fd, srcs[:40 if q else 200], cfgs2, tag="stdio", san=True)
 
     def mem_delivery(c, job):
@@ -574,14 +607,16 @@ def c18(run):
     big = [("keywords-1800", kw, None)]
     ENVS = [("base", {}, fd, None), ("perturb-a5", {"MALLOC_PERTURB_": "165"}, fd, None), ("perturb-5a", {"MALLOC_PERTURB_": "90"}, fd, None),
             ("arena1", {"MALLOC_ARENA_MAX": "1", "MALLOC_TOP_PAD_": "1"}, fd, None), ("bigenv", {"VERIF_PAD": "x" * 60000}, fd, None),
-            ("cwd", {}, fd, "/tmp"), ("asan-build", {}, fda, None), ("stdout", {}, fd, None), ("file-only", {}, fd, None)]
+            ("cwd", {}, fd, "/tmp"), ("asan-build", {}, fda, None), ("stdout", {}, fd, None), ("file-only", {}, fd, None),
+            ("stdout-named", {}, fd, None)]
     OPTS = [[], ["-Cf"], ["-CF"], ["-Cem"], ["-C"], ["-R"], ["-i"], ["-Ca"]]
     jobs = []
     for name, text, _ in valid + big:
         for o in (rng.sample(OPTS, 3 if q else len(OPTS)) if name != "keywords-1800" else [[], ["-Cf"]]):
             for en, env, f, cwd in ENVS:
                 jobs.append(dict(name=name, text=text, args=o, env=env, en=en, fd=f, cwd=cwd,
-                                 want=("scanner", "header", "tables") if en not in ("stdout", "file-only") else ("scanner",), stdout_scanner=(en == "stdout")))
+                                 want=("scanner", "header", "tables") if en not in ("stdout", "file-only", "stdout-named") else ("scanner",),
+                                 stdout_scanner=("named" if en == "stdout-named" else en == "stdout")))
     import concurrent.futures as cf
     def one(j):
         o, wd = G.run_flex(j["fd"], j["text"], j["args"], want=j["want"], env=j["env"], cwd=j["cwd"], stdout_scanner=j["stdout_scanner"],
@@ -808,7 +843,8 @@ def c12(run):
     schedules = json.load(open(sch))
     srcs = fam(run, profiles=("lit", "ops", "sc", "trail", "mix"), core=1, rnd=6 if q else 30, hand=True)[:10 if q else 50]
     cases = units.product_unit(run, fd, srcs, [{"flavour": "r", "reject": True, "yymore": True, "instances": True, "stack": False},
-                                               {"flavour": "r", "reject": True, "yymore": True, "instances": True, "stack": False, "tablesfile": True}],
+                                               {"flavour": "r", "reject": True, "yymore": True, "instances": True, "stack": False, "tablesfile": True},
+                                               {"flavour": "r", "reject": True, "yymore": True, "instances": True, "stack": False, "heap": True}],
                                tag="product", san=True)
     ok = [c for c in cases if c.status == "ok"]
     wd = os.path.join(run.work, "inst"); os.makedirs(wd, exist_ok=True)
